@@ -100,6 +100,7 @@ GROUPS = {
     'varint': [('v1_write_u64', 'integer_encoding::VarIntWriter::write_varint::<u64>'), ('v2_write_u32', 'integer_encoding::VarIntWriter::write_varint::<u32>'),
                ('v5_roundtrip_u64', 'integer_encoding write_varint+read_varint')],
     'tile_id': [('h3_zxy_total', 'util::zxy (every u64 id)'), ('h5_blocks_contiguous', 'util::tile_id block starts')],
+    'dirfind': [('d1_find_entry', 'directory::Directory::find_entry_for_tile_id (<= 3 symbolic entries; BOUNDED)')],
     'latlng': [('f1_nearest', 'header::lat_lng::LatLng::write_lat_lon (conversion expression)'),
                ('f2_identity_slice', 'header::lat_lng::LatLng::{read_lat_lon, write_lat_lon} (conversion expressions, 2^16 slice)')],
 }
@@ -134,6 +135,8 @@ def qualify(n):
         return 'varint::' + n
     if n.startswith('f'):
         return 'latlng::' + n
+    if n.startswith('d1_'):
+        return 'dirfind::' + n
     if n in ('h3_zxy_total', 'h5_blocks_contiguous'):
         return 'tile_id::' + n
     return 'gen_zoom::' + n
@@ -309,10 +312,14 @@ def run_group(group, prop, tier, repo, crate=None):
         if h is None or h['status'] is None:
             r['undecided'].append(f'kani harness {n}: no verdict (build error, timeout or out of memory): ' + out[-400:].replace('\n', ' '))
             continue
-        bounded = n.startswith(('adj_', 'child_', 'f2_'))
+        bounded = n.startswith(('adj_', 'child_', 'f2_', 'd1_'))
         r['harnesses'].append({'name': n, 'target': target, 'checks': h['checks'], 'time_s': h['time_s'],
                                'complete': not bounded, 'status': h['status']})
         r['checks'] += h['checks']
+        if h['status'] == 'failed' and h.get('oom'):
+            r['undecided'].append(f'kani harness {n}: CBMC ran out of memory (no verdict)')
+            r['harnesses'][-1]['status'] = 'no verdict (out of memory)'
+            continue
         if h['status'] == 'failed':
             if h['unwind_fail'] and h['failed'] == sum(1 for f in h['failed_checks'] if 'unwinding' in f):
                 r['undecided'].append(f'kani harness {n}: only unwinding assertions failed (loop bound too small for the changed code)')
